@@ -21,6 +21,7 @@ import vlib
 
 sys.path.insert(0, os.path.join(vlib.VERIF, "gen"))
 import englib  # noqa: E402
+import engpat  # noqa: E402
 import eng_facts  # noqa: E402
 import keymaps  # noqa: E402
 
@@ -84,7 +85,7 @@ MUTATION_DRILLS = [
  }
 ]
 
-AUTO_COMMIT = {"synth_express": True, "synth_fluid": False, "luna_pinyin": True, "luna_pinyin_fluid": False,
+AUTO_COMMIT = {"synth_express": True, "synth_fluid": False, "synth_punct_express": True, "synth_punct_fluid": False, "luna_pinyin": True, "luna_pinyin_fluid": False,
                "cangjie5": True, "cangjie5_fluid": False}
 
 
@@ -96,10 +97,13 @@ def oracle(schema, ops, lines, stats):
     """The property's own oracle on one history's observation lines.
     Returns (index, clause, detail) of the first failure or None."""
     prev = None
+    auto = AUTO_COMMIT[schema]     # the editor's flavour sets _auto_commit at creation; a client may overwrite it with set_option
     for i, (op, line) in enumerate(zip(ops, lines)):
         d = englib.parse_obs(line)
         if "crash" in d:
             return None
+        if op.startswith("opt _auto_commit "):
+            auto = op.split()[2] == "1"
         if prev is None:
             prev = d
             if op != "getctx":
@@ -150,7 +154,7 @@ def oracle(schema, ops, lines, stats):
                     want = hx(prev["cf"]) + hx(texts[pos])
                     if hx(prev["cf"]):
                         stats["covering_after_partial"] += 1
-                    if AUTO_COMMIT[schema]:
+                    if auto:
                         if ca != cb + want or d["c"] != "0":
                             return (i, "select-covering-rest:auto-commit",
                                     "delivered %s (composing=%s), expected confirmed %s + shown %s" % (ca[len(cb):] or "-", d["c"], prev["cf"], texts[pos]))
@@ -208,6 +212,20 @@ def run(ctx):
             [(englib.SYNTH[i % 2], englib.gen_commit_history(rng, length())) for i in range(n_synth)]
     stock = [(s, f) for s in englib.STOCK for f in fixed] + \
             [(englib.STOCK[i % 4], englib.gen_commit_history(rng, length(), stock=True)) for i in range(n_stock)]
+
+    # round 3: input that passes an affix_segmentor / recognizer pattern (phony prefix and suffix segments); the schema
+    # switcher opened in mid-composition; fully converted compositions kept by _auto_commit off
+    n_pat = 120 if quick else 900
+    stock += [(englib.STOCK[i % 4], engpat.gen_affix_history(rng, englib.STOCK[i % 4])) for i in range(n_pat)]
+    stock += [(englib.STOCK[i % 4], engpat.gen_no_autocommit_history(rng)) for i in range(n_pat // 3)]
+    synth += [(englib.SYNTH[i % 2], engpat.gen_no_autocommit_history(rng)) for i in range(n_pat // 3)]
+    # round 3: punctuation keys on the synth_punct_* schemas (commit / pair / unique shapes commit through the punctuator;
+    # merged menus of punct_translator and the oracle translator); model diff + the three oracles as on the other schemas
+    n_punct = 250 if quick else 2500
+    synth += [(englib.SYNTH_PUNCT[i % 2], englib.gen_punct_history(rng, length(), full_shape=False)) for i in range(n_punct)]
+    synth += [(englib.SYNTH_PUNCT[i % 2], englib.gen_commit_history(rng, length())) for i in range(n_punct // 2)]
+    ctx.coverage["punct_histories"] = {"punct_keys": n_punct, "commit_histories_on_punct_schemas": n_punct // 2}
+    ctx.coverage["pattern_histories"] = {"affix_phony_segments": n_pat, "no_auto_commit": 2 * (n_pat // 3)}
 
     stats = collections.Counter()
     fails, mism, aborts, samples = {}, [], [], []
